@@ -263,37 +263,42 @@ def rule_size(ck, rf, hm, consts):
 
 
 def _handler_aborts(fi, h: ast.ExceptHandler) -> bool:
-    """Every path from the entry of handler ``h`` to the normal exit of fi passes
-    self._abort() and never a callback / dispatch."""
+    """Every path that enters handler ``h`` and reaches the normal exit of fi has called self._abort() after entering it
+    and no callback / dispatch follows - decided path-sensitively (constant propagation), so that a handler that
+    records "failed" in a local which is tested afterwards (a helper inlined with its `return None`) is read correctly."""
     cfg = fi.cfg
-    starts = [n for n in cfg.nodes if n.kind == "handler" and n.ast is h and n.id in cfg.reachable()]
+    starts = {n.id for n in cfg.nodes if n.kind == "handler" and n.ast is h and n.id in cfg.reachable()}
     if not starts:
         return False
-    for s in starts:
-        stack = [(s.id, False)]
-        seen = set()
-        while stack:
-            nid, ab = stack.pop()
-            if (nid, ab) in seen:
-                continue
-            seen.add((nid, ab))
-            n = cfg.nodes[nid]
-            if n.kind in ("stmt", "test"):
-                if X.calls_in_node(n, "self._abort"):
-                    ab = True
-                if X.calls_in_node(n, "self._run_callback", "self._handle_message", "self.handler.on_message"):
-                    return False
-            if n is cfg.exit:
-                if not ab:
-                    return False
-                continue
-            if n is cfg.rexit:
-                continue
-            for sid, kind in cfg.succ[nid]:
-                if kind == "exc" and ab:
-                    continue
-                stack.append((sid, ab))
-    return True
+
+    def ut(n, u, env):
+        entered, ab, bad = u
+        if n.id in starts:
+            return (True, False, False)
+        if entered and n.kind in ("stmt", "test"):
+            if X.calls_in_node(n, "self._abort"):
+                ab = True
+            if X.calls_in_node(n, "self._run_callback", "self._handle_message", "self.handler.on_message"):
+                bad = True
+        return (entered, ab, bad)
+
+    try:
+        consts = X.class_consts(fi_repo(fi), fi.file, fi.qualname.split(".")[0]) if fi.cls is not None else {}
+    except Exception:
+        consts = {}
+    seen = X.explore_consts(cfg, consts, uinit=(False, False, False), utransfer=ut)
+    finals = [u for _e, u in X.states_at(seen, cfg.exit) if u[0]]
+    if not finals:
+        # the handler never reaches a normal return (it re-raises): nothing is delivered through it
+        return all(u[1] for _e, u in X.states_at(seen, cfg.rexit) if u[0]) if any(u[0] for _e, u in X.states_at(seen, cfg.rexit)) else False
+    return all(ab and not bad for _ent, ab, bad in finals)
+
+
+_REPO = [None]
+
+
+def fi_repo(fi):
+    return _REPO[0]
 
 
 def _handled_by_abort(ck, rule, fi, sites, exc, chain, what, report_fi=None, report_node=None):
@@ -476,6 +481,7 @@ def run(ck):
     ck.rule("C15.abort-stops", "_abort sets both terminated flags and closes the stream; once terminated the dispatcher does nothing and the loop stops; nothing follows _abort() in the parser; callback errors abort")
     ck.rule("C15.exc-abort", "every operation of the receive call tree that peer bytes can make raise (inflate, UTF-8 decoding, struct.unpack) is under a handler that aborts the connection, within _handle_message/_receive_frame/_receive_frame_loop")
 
+    _REPO[0] = ck.repo
     consts = X.class_consts(ck.repo, W, P13)
     rf = ck.func(W, P13 + "._receive_frame")
     hm = ck.func(W, P13 + "._handle_message")
